@@ -373,16 +373,35 @@ pub fn run(ctx: &Ctx) -> Outcome {
         per.push(json!({"scenario": explore::Sys::name(&s), "depth": depth, "states": st.states, "transitions": st.transitions, "depth_completed": st.depth_completed}));
         total.merge(&st);
     }
+    // pieces larger than any internal I/O chunk (tokio writes files in 2 MiB chunks): one honest
+    // download of two such pieces with the storage invariants evaluated after every event
+    {
+        let dir = core::private_cwd("c01", "bigpiece");
+        match crate::c02::big_piece_run(&dir) {
+            None => per.push(json!({"scenario": "e2e-pieces-over-2MiB-1seeder", "completed": true})),
+            Some((class, why)) => ctx.violation(class, format!("[e2e-pieces-over-2MiB-1seeder] {}", &why[..why.len().min(500)]), json!({"scenario": "e2e-pieces-over-2MiB-1seeder", "history": []})),
+        }
+    }
     let mut o = Outcome::new("model_checking");
     explore::stats_outcome(&total, &mut o);
     o.set("scenarios", Value::Array(per));
-    o.set("rule", json!("torrent: piece 0 = 16387 B (blocks 16384 + 3), piece 1 = 5 B; adversarial peer k (after handshake + full bitfield): N unchoke, Go/Gn correct answer to the oldest/newest outstanding request, Xo/Xn same coordinates with one payload bit flipped, Wi other piece index, Wb begin+1, Wl/WL one byte short/long, D duplicate of the last accepted block, U block at an offset never requested, C choke, Z close, R reset, L release of a held-back broadcast; observer (incoming): So joins at any point (handshake + empty bitfield + interested in one read; the bitfield it is sent is checked), then Q0/Q1 requests the first block of piece 0/1; -stale scenarios start with zero-filled files of the right length under the names of the listed pieces (they are not data the client stored; a piece counts as stored only when its file holds verified content); histories with at most `dev` non-honest events (N, G*, L are honest); every tie-break of the chooser enumerated. Plus two full-session scenarios borrowed from C02 (storage-*): a host re-listed by the tracker under a new peer id while its old connection is live, and two seeders with held-back broadcasts; there only 'Have implies a stored verified piece' and 'owned stays owned' are evaluated."));
+    o.set("rule", json!("torrent: piece 0 = 16387 B (blocks 16384 + 3), piece 1 = 5 B; adversarial peer k (after handshake + full bitfield): N unchoke, Go/Gn correct answer to the oldest/newest outstanding request, Xo/Xn same coordinates with one payload bit flipped, Wi other piece index, Wb begin+1, Wl/WL one byte short/long, D duplicate of the last accepted block, U block at an offset never requested, C choke, Z close, R reset, L release of a held-back broadcast; observer (incoming): So joins at any point (handshake + empty bitfield + interested in one read; the bitfield it is sent is checked), then Q0/Q1 requests the first block of piece 0/1; -stale scenarios start with zero-filled files of the right length under the names of the listed pieces (they are not data the client stored; a piece counts as stored only when its file holds verified content); histories with at most `dev` non-honest events (N, G*, L are honest); every tie-break of the chooser enumerated. Plus two full-session scenarios borrowed from C02 (storage-*): a host re-listed by the tracker under a new peer id while its old connection is live, and two seeders with held-back broadcasts; there only 'Have implies a stored verified piece' and 'owned stays owned' are evaluated. Plus one honest download of two pieces of 2 MiB + 16 KiB + 5 bytes (larger than tokio's 2 MiB file-write chunk) with the same invariants after every event."));
     o.assume("payload bytes enter the state key only as per-block tags {empty, correct, corrupt}: no code path inspects payload other than through SHA-1 of the whole piece");
     o
 }
 
 pub fn replay(_ctx: &Ctx, r: &Value) -> i32 {
     let name = r["scenario"].as_str().unwrap();
+    if name == "e2e-pieces-over-2MiB-1seeder" {
+        let dir = core::private_cwd("c01", "replay");
+        return match crate::c02::big_piece_run(&dir) {
+            None => 0,
+            Some((class, why)) => {
+                println!("VIOLATION property=C01 replay=<this file>\n  class={} {}", class, why);
+                1
+            }
+        };
+    }
     for (s, _) in crate::c02::storage_scenarios() {
         if explore::Sys::name(&s) == name {
             return explore::replay_verbose(&s, &explore::hist_from_json(&r["history"]), "C01");
